@@ -1134,8 +1134,12 @@ impl DB {
             (wal_record, is_eof) = wal_reader.read_record()?;
         }
 
+        // A WAL that ends in a torn write cannot be appended to. Later records would be
+        // unreachable behind the partial bytes.
+        let has_torn_tail = !wal_reader.is_at_clean_end()?;
         let mut was_memtable_reused = false;
-        if self.options.reuse_log_files() && is_last_wal && num_compactions == 0 {
+        if self.options.reuse_log_files() && is_last_wal && num_compactions == 0 && !has_torn_tail
+        {
             log::info!("Reusing WAL file: {wal_path:?}.", wal_path = &wal_path);
             drop(wal_reader);
             if let Ok(wal_writer) =
